@@ -196,6 +196,56 @@ def run(seed, tier, driver):
                               'final_a': base[1], 'cuts_b': cuts, 'outs_b': outs, 'final_b': final},
                              key='framing-segmentation')
 
+    # ---- the peer's OPEN in its variants (capabilities naming families / values the agent knows or does not know), followed by
+    # more traffic, delivered while the agent waits for it (OpenSent): extraction, reaction and termination as for any stream
+    pool = dict(SG.message_pool(remote_as))
+    for combo in (('open_ok', 'keepalive', 'update_ok'), ('open_nocaps', 'keepalive'), ('open_addpath_ipv4', 'keepalive'),
+                  ('open_addpath_unknown_family', 'keepalive'), ('open_addpath_action0', 'keepalive', 'update_ok'),
+                  ('open_llgr_extnh_unknown', 'keepalive'), ('open_hold3', 'keepalive'), ('open_as4_only_in_cap', 'keepalive')):
+        stream = b''.join(pool[k] for k in combo)
+        base = None
+        segs = [[], list(range(1, len(stream))), [19], [29], [len(pool[combo[0]])], [len(pool[combo[0]]) - 1]] + \
+            [sorted(r.sample(range(1, len(stream)), k)) for k in (2, 4)]
+        for cuts in segs:
+            p, outs, final, hang = play('OPENSENT', cut(stream, cuts))
+            res.stats.case(('seg', 'OPENSENT', stream.hex(), tuple(cuts)), nontrivial=True, sample=None)
+            res.stats.hit('stream_opensent')
+            if hang:
+                res.fail('C04', 'handling of a chunk did not finish in bounded time / raised',
+                         {'state': 'OPENSENT', 'stream': stream.hex(), 'cuts': cuts}, key='framing-hang')
+                break
+            if base is None:
+                base = (outs, final, cuts)
+                check_reaction('+'.join(combo), stream, 'OPENSENT', outs, final)
+            elif (outs, final) != (base[0], base[1]):
+                res.fail('C04', 'reaction depends on the TCP segmentation',
+                         {'state': 'OPENSENT', 'stream': stream.hex(), 'cuts_a': base[2], 'outs_a': base[0],
+                          'final_a': base[1], 'cuts_b': cuts, 'outs_b': outs, 'final_b': final}, key='framing-segmentation')
+                break
+    # ---- bursts: many well-formed messages in one segment, more than a maximum-size message's worth of octets
+    for label, stream in (('burst_small', (pool['update_ok'] + pool['keepalive'] + pool['update_withdraw']) * 45),
+                          ('burst_max', pool['update_max4096'] + pool['keepalive'] + pool['update_max4096'] + pool['update_ok'])):
+        base = None
+        n = len(stream)
+        for cuts in ([], [4096], [4097], [n // 2], [1000, 5000 % n if 5000 % n > 1000 else n - 1],
+                     sorted(r.sample(range(1, n), 3)), list(range(512, n, 512))):
+            p, outs, final, hang = play('ESTABLISHED', cut(stream, cuts))
+            res.stats.case(('seg', 'ESTABLISHED', label, tuple(cuts)), nontrivial=True, sample=None)
+            res.stats.hit('stream_burst')
+            if hang:
+                res.fail('C04', 'handling of a chunk did not finish in bounded time / raised',
+                         {'state': 'ESTABLISHED', 'stream': label, 'octets': n, 'cuts': cuts}, key='framing-hang')
+                break
+            if base is None:
+                base = (outs, final, cuts)
+                check_reaction(label, stream, 'ESTABLISHED', outs, final)
+            elif (outs, final) != (base[0], base[1]):
+                res.fail('C04', 'reaction depends on the TCP segmentation (a burst of %d octets of well-formed messages)' % n,
+                         {'state': 'ESTABLISHED', 'stream': label, 'octets': n, 'cuts_a': base[2], 'cuts_b': cuts,
+                          'outs_a': base[0][-3:], 'outs_b': outs[-3:], 'final_a': base[1], 'final_b': final},
+                         key='framing-segmentation')
+                break
+
     # ---- every length-field value and every type octet (header only, plus enough padding to be complete)
     lengths = list(range(0, 65536)) if tier != 'quick' else sorted(set(
         list(range(0, 45)) + list(range(4085, 4110)) + list(range(65520, 65536)) + [255, 256, 1000, 4096, 4097, 32767, 32768]
